@@ -104,17 +104,57 @@ func ruleRawDecoderReadsStream(c *chk.Ctx) {
 	for _, f := range pkgFuncs(c, c.M.ChanPkg) {
 		ir.Instrs(f, func(ins ssa.Instruction) {
 			call, ok := ins.(*ssa.Call)
-			if !ok || !ir.IsCallTo(&call.Call, "encoding/json.NewDecoder") {
+			if !ok || !ir.IsCallTo(&call.Call, "encoding/json.NewDecoder", "bufio.NewReader", "bufio.NewReaderSize") {
 				return
 			}
 			n++
 			_, direct := call.Call.Args[0].(*ssa.Parameter)
-			c.Check(direct, "WHO.chanstate", f, "decoder reads the stream itself", call.Pos(), "json.NewDecoder is given the constructor's reader unchanged", "the stream decoder is built on a wrapped reader (limit, tee, ...): the wrapper's own end-of-stream or byte budget would truncate or drop records")
+			why := ""
+			if !direct {
+				// a reader type of the package itself is acceptable when its Read hands on the inner
+				// Read's byte count on every return
+				direct, why = transparentReader(c, call.Call.Args[0])
+			}
+			c.Check(direct, "WHO.chanstate", f, "decoder reads the stream itself", call.Pos(), "the buffered reader / decoder is given the constructor's reader unchanged", "the framing's reader is built on a wrapped reader"+why+": the wrapper's own end-of-stream, byte budget or dropped byte counts would truncate or lose records")
 		})
 	}
 	if n == 0 {
 		c.Undecided("WHO.chanstate", nil, "stream decoder", 0, "no json.NewDecoder in the channel package")
 	}
+}
+
+// transparentReader: v is a value of a reader type declared in the repository
+// whose Read method returns, on every path, the byte count of the inner Read
+// it forwards to (bytes delivered together with an error are not dropped).
+func transparentReader(c *chk.Ctx, v ssa.Value) (bool, string) {
+	mi, ok := v.(*ssa.MakeInterface)
+	if !ok {
+		return false, ""
+	}
+	var read *ssa.Function
+	for _, f := range c.P.Funcs {
+		if f.Parent() == nil && ir.BaseName(f) == "Read" && f.Signature.Recv() != nil && types.Identical(f.Signature.Recv().Type(), mi.X.Type()) {
+			read = f
+		}
+	}
+	if read == nil || read.Signature.Results().Len() != 2 {
+		return false, ""
+	}
+	var inner *ssa.Call
+	ir.Instrs(read, func(ins ssa.Instruction) {
+		if call, ok := ins.(*ssa.Call); ok && call.Call.IsInvoke() && call.Call.Method.Name() == "Read" {
+			inner = call
+		}
+	})
+	if inner == nil {
+		return false, " (its Read does not forward to an inner Read)"
+	}
+	for _, r := range ir.Returns(read) {
+		if !ir.IsExtractOf(ir.ReturnResult(r, 0), inner, 0) {
+			return false, " (its Read at " + c.P.Pos(r.Pos()) + " does not return the inner Read's byte count: bytes delivered together with an error would be lost)"
+		}
+	}
+	return true, ""
 }
 
 // ruleUnmarshalParamsErrors: every error (*Request).UnmarshalParams returns
@@ -138,7 +178,7 @@ func ruleUnmarshalParamsErrors(c *chk.Ctx) {
 		g := errGlobalOf(c, v)
 		isWithData := false
 		if mi, ok := v.(*ssa.MakeInterface); ok {
-			if call, ok := mi.X.(*ssa.Call); ok && call.Call.StaticCallee() != nil && call.Call.StaticCallee().Name() == "WithData" {
+			if call, ok := mi.X.(*ssa.Call); ok && call.Call.StaticCallee() != nil && ir.BaseName(call.Call.StaticCallee()) == "WithData" {
 				isWithData = true
 			}
 		}
@@ -337,7 +377,7 @@ func ruleWatcherReportsCtxErr(c *chk.Ctx, owner string) {
 		}
 		c.P.ExtInstrs(f, func(ins ssa.Instruction) {
 			call, ok := ins.(*ssa.Call)
-			if !ok || call.Call.StaticCallee() == nil || call.Call.StaticCallee().Name() != "ErrorCode" {
+			if !ok || call.Call.StaticCallee() == nil || ir.BaseName(call.Call.StaticCallee()) != "ErrorCode" {
 				return
 			}
 			found = true
@@ -475,7 +515,7 @@ func ruleEveryPeerErrorFiltered(c *chk.Ctx) {
 // ruleLoopSuccessReachesFinish: once a service's Assigner succeeded, every
 // path of the connection goroutine reaches Finish.
 func ruleLoopSuccessReachesFinish(c *chk.Ctx) {
-	loop := c.M.ServerPkg.Func("Loop")
+	loop := c.M.Func(c.M.ServerPkg, "Loop")
 	if loop == nil {
 		c.Undecided("PAIR.loop", nil, "ruleLoopSuccessReachesFinish: anchor", 0, "the code this rule is anchored in was not found (loop == nil)")
 		return
@@ -758,7 +798,7 @@ func ruleNullErrorIsAbsent(c *chk.Ctx) {
 			}
 			nullExcluded := false
 			for _, cd := range ir.CondsAt(st.Block()) {
-				if call, ok := cd.V.(*ssa.Call); ok && !cd.Truth && call.Call.StaticCallee() != nil && call.Call.StaticCallee().Name() == "isNull" {
+				if call, ok := cd.V.(*ssa.Call); ok && !cd.Truth && call.Call.StaticCallee() != nil && ir.BaseName(call.Call.StaticCallee()) == "isNull" {
 					nullExcluded = true
 				}
 			}
